@@ -81,7 +81,7 @@ class HRNP(BytesInterface):
         ), f"At least 12-bytes for HRNP required, got {len(data)} bytes instead"
         hrnp_packet_len = int.from_bytes(data[8:10], byteorder="big")
         assert len(data) >= hrnp_packet_len, f"packet seems incomplete"
-        return HRNP(
+        hrnp = HRNP(
             header=data[0:1],
             version=data[1:2],
             block_number=data[2],
@@ -92,6 +92,13 @@ class HRNP(BytesInterface):
             checksum=data[10:12],
             data=data[12:hrnp_packet_len],
         )
+        # the verdict on a received packet is about the octets that were received: the checksum field
+        # is compared with the checksum of the other received octets, not of the re-serialised fields
+        hrnp.checksum_correct = (
+            HRNP.calculate_checksum(data[0:10] + data[12:hrnp_packet_len])
+            == data[10:12]
+        )
+        return hrnp
 
     def as_bytes(self, endian: Literal["big", "little"] = "big") -> bytes:
         return (
@@ -137,6 +144,22 @@ class HRNP(BytesInterface):
         if self.has_data():
             checked_data += self.data.as_bytes()
 
+        check: bytes = HRNP.calculate_checksum(checked_data)
+
+        # make check and checksum comparable
+        checksum: int = (
+            checksum
+            if isinstance(checksum, int)
+            else int.from_bytes(checksum, byteorder="big")
+        )
+
+        return int.from_bytes(check, byteorder="big") == checksum, check
+
+    @staticmethod
+    def calculate_checksum(checked_data: bytes) -> bytes:
+        """
+        One's complement of the one's complement sum of the big-endian 16-bit words
+        """
         if len(checked_data) % 2 == 1:
             # add padding byte
             checked_data += b"\x00"
@@ -152,11 +175,4 @@ class HRNP(BytesInterface):
 
         check = ~check & 0xFFFF
 
-        # make check and checksum comparable
-        checksum: int = (
-            checksum
-            if isinstance(checksum, int)
-            else int.from_bytes(checksum, byteorder="big")
-        )
-
-        return check == checksum, check.to_bytes(length=2, byteorder="big")
+        return check.to_bytes(length=2, byteorder="big")
